@@ -112,6 +112,15 @@ func typeFromAST(p *Prog, pkg *types.Package, ex ast.Expr) types.Type {
 		}
 	case *ast.InterfaceType:
 		return types.NewInterfaceType(nil, nil)
+	case *ast.MapType:
+		k, v := typeFromAST(p, pkg, x.Key), typeFromAST(p, pkg, x.Value)
+		if k != nil && v != nil {
+			return types.NewMap(k, v)
+		}
+	case *ast.StructType:
+		if x.Fields == nil || len(x.Fields.List) == 0 {
+			return types.NewStruct(nil, nil)
+		}
 	case *ast.ParenExpr:
 		return typeFromAST(p, pkg, x.X)
 	}
